@@ -418,6 +418,7 @@ type VerifPaginationData struct {
 	DocParses  bool
 	DocURL     string // parsedDocURL.String()
 	StrPageURL string // the unescaped form FindPagination compares with
+	EscPageURL string // the escaped form without user info it compares with as well
 	URLs       []VerifURLAtoms
 	PagingKeys []string // pattern keys, in the order of IsPaging rows
 	PagingURLs []string // URLs, in the order of IsPaging columns
@@ -440,8 +441,8 @@ func verifGroups(g *info.MonotonicPageInfoGroups) []VerifPageGroup {
 
 func VerifPagination(root *html.Node, pageURL *nurl.URL) VerifPaginationData {
 	wc := stringutil.SelectWordCounter(dom.TextContent(root))
-	trimmed, strPageURL := pagination.VerifTrimmedPageURL(pageURL)
-	d := VerifPaginationData{DocURLArg: trimmed.String(), StrPageURL: strPageURL}
+	trimmed, strPageURL, escPageURL := pagination.VerifTrimmedPageURL(pageURL)
+	d := VerifPaginationData{DocURLArg: trimmed.String(), StrPageURL: strPageURL, EscPageURL: escPageURL}
 	d.Groups = verifGroups(pagination.VerifNumberGroups(root, trimmed, wc))
 
 	parsedDocURL, err := nurl.ParseRequestURI(d.DocURLArg)
